@@ -144,6 +144,12 @@ VARIANTS["C09"] = [
 # ------------------------------------------------------------------------------------------ C10
 HT = "whatshap/cli/haplotag.py"
 VARIANTS["C10"] = [
+    ("earlier-region-skip-dropped", "whatshap/cli/haplotag.py", "                    if any(overlaps_region(alignment, s, e) for s, e in regions[:i]):\n                        # Already written when that earlier region was processed\n                        continue\n", "", "C10.R6"),
+    ("skip-looks-at-later-regions", "whatshap/cli/haplotag.py", "for s, e in regions[:i]):", "for s, e in regions[i + 1 :]):", "C10.R6"),
+    ("skip-looks-at-all-regions", "whatshap/cli/haplotag.py", "for s, e in regions[:i]):", "for s, e in regions):", "C10.R6"),
+    ("overlap-test-ignores-open-end", "whatshap/cli/haplotag.py", "    return alignment_end > start and (end is None or alignment.reference_start < end)", "    return alignment_end > start and end is not None and alignment.reference_start < end", "C10.R6"),
+    ("overlap-test-by-start-only", "whatshap/cli/haplotag.py", "    return alignment_end > start and (end is None or alignment.reference_start < end)", "    return alignment.reference_start >= start and (end is None or alignment.reference_start < end)", "C10.R6"),
+    ("b-skip-flag-local", "whatshap/cli/haplotag.py", "                    if any(overlaps_region(alignment, s, e) for s, e in regions[:i]):\n", "                    seen_before = any(overlaps_region(alignment, s, e) for s, e in regions[:i])\n                    if seen_before:\n", "silent"),
     ("ignored-reads-not-written", HT, "                        alignment.set_tag(\"HP\", value=None)\n                        alignment.set_tag(\"PC\", value=None)\n                        alignment.set_tag(\"PS\", value=None)\n                    else:", "                        alignment.set_tag(\"HP\", value=None)\n                        alignment.set_tag(\"PC\", value=None)\n                        alignment.set_tag(\"PS\", value=None)\n                        if alignment.is_secondary:\n                            continue\n                    else:", "C10.R1"),
     ("progress-break", HT, "                    if n_alignments % 100_000 == 0:\n                        logger.debug(f\"Processed {n_alignments} alignment records.\")", "                    if n_alignments % 100_000 == 0:\n                        logger.debug(f\"Processed {n_alignments} alignment records.\")\n                        break", "C10.R1"),
     ("unmapped-tail-always", HT, "        if include_unmapped:\n            logger.debug(\"Copying unmapped reads to output\")", "        if include_unmapped or regions:\n            logger.debug(\"Copying unmapped reads to output\")", "C10.R1"),
@@ -215,7 +221,12 @@ VARIANTS["C13"] = [
     ("qual-cleared", UP, "            writer.write(record)", "            record.qual = None\n            writer.write(record)", "C13.R3"),
     ("gt-deduplicated", UP, '                    call["GT"] = sorted(gt)', '                    call["GT"] = sorted(set(gt))', "C13.R3"),
     ("records-without-samples-dropped", UP, "            writer.write(record)", "            if len(record.samples) > 0:\n                writer.write(record)", "C13.R4"),
-    ("stops-at-first-unphased", UP, "        for record in reader:\n            for tag in TAGS_TO_REMOVE:", "        for record in reader:\n            if not record.format:\n                break\n            for tag in TAGS_TO_REMOVE:", "C13.R4"),
+    ("stops-at-first-unphased", UP, "        for record in reader:\n", "        for record in reader:\n            if not record.format:\n                break\n", "C13.R4"),
+    ("contig-not-declared", UP, "                writer.header.contigs.add(record.contig)\n", "                pass\n", "C13.R5"),
+    ("contig-declared-to-the-reader", UP, "                writer.header.contigs.add(record.contig)\n", "                reader.header.contigs.add(record.contig)\n", "C13.R5"),
+    ("contig-declared-only-for-phased-records", UP, "            if record.contig not in writer.header.contigs:", "            if record.contig not in writer.header.contigs and any(call.phased for call in record.samples.values()):", "C13.R5"),
+    ("augmenter-header-not-repaired", VCF, "        augment_header(self._reader.header, contigs, formats, infos)\n", "", "C13.R5"),
+    ("b-contig-declared-via-chrom", UP, "            if record.contig not in writer.header.contigs:", "            if record.chrom not in writer.header.contigs:", "silent"),
     # benign
     ("b-guard-as-positive-if", UP, '                if "GT" not in call:\n                    continue\n                gt = call["GT"]\n                if gt is not None and all(allele is not None for allele in gt):\n                    call["GT"] = sorted(gt)\n                call.phased = False', '                if "GT" in call:\n                    gt = call["GT"]\n                    if gt is not None and not any(allele is None for allele in gt):\n                        call["GT"] = sorted(gt)\n                    call.phased = False', "silent"),
     ("b-rename-record", UP, "        for record in reader:\n            for tag in TAGS_TO_REMOVE:\n                if tag in record.format:\n                    del record.format[tag]", "        for record in reader:\n            for key in TAGS_TO_REMOVE:\n                if key in record.format:\n                    del record.format[key]", "silent"),
